@@ -49,7 +49,7 @@ CONSTANTS Jobs,       \* the case spaces explored by this run: a set of Job(...)
 \*            "ext":  like "dag", and any one position of a base list may hold a base Griffe cannot resolve
 \*                    (a builtin, a class of a package that is not loaded, `Generic[T]`): written Ext in bases[c]
 \*   mem      member names that may be declared in class bodies (every placement is explored)
-\*   layouts  subset of {"one", "from", "as", "attr", "chain", "chain2", "sub", "nest"} (every split point is explored)
+\*   layouts  subset of {"one", "from", "as", "attr", "chain", "chain2", "sub", "nest", "nest2", "nest2d"} (every split point)
 \*   dodel    TRUE: after the members are known, one `del cls[name]` is applied (every class x name) and the
 \*            inherited members are computed again
 Job(name, n, maxb, domain, mem, layouts) ==
@@ -65,6 +65,8 @@ LastRootJob(name, n, maxb, domain, mem, layouts) == [Job(name, n, maxb, domain, 
 DelJob(name, n, maxb, domain, mem, layouts) == [Job(name, n, maxb, domain, mem, layouts) EXCEPT !.dodel = TRUE]
 One == {"one"}
 Split == {"from", "as", "attr", "chain", "chain2"}     \* two modules, the bases of one reached through imports
+Deep == {"nest2", "nest2d"}   \* how a base is WRITTEN: a dotted chain of three components `H.M.Cb` (classes 1..cut are members of
+                              \* ma.H.M); "nest2d": in addition a same-named decoy class Cb sits at the shorter path ma.H.Cb
 Spell == {"sub", "nest"}                               \* one module: subscripted bases `Cb[int]`; classes 1..cut nested
                                                        \* in a holder class H and named `H.Cb` from outside
 QuickJobs ==
@@ -83,7 +85,8 @@ QuickJobs ==
     DelJob("del3", 3, 3, "dag", {"m1"}, One),       \* 10 x 8 x 3 deletions
     Job("ext3", 3, 3, "ext", {"m1"}, One),          \* 160 hierarchies with unresolvable bases x 8
     Job("ext4", 4, 2, "ext", {}, One),              \* 1 700 (<= 2 bases), orders only
-    ImportJob("imp3", 3, 3, "dag", {"m1"}, One) }   \* 10 x 27 (absent / defined / imported per class)
+    ImportJob("imp3", 3, 3, "dag", {"m1"}, One),
+    Job("deep3", 3, 3, "dag", {"m1"}, Deep) }       \* 10 x 2 layouts x 2 cuts x 8   \* 10 x 27 (absent / defined / imported per class)
 \* thorough: one TLC run per job (the driver replays a job while TLC explores the next one)
 T_dag5 == { Job("dag5", 5, 3, "dag", {"m1"}, One) }                  \* 6 560 hierarchies x 32 placements
 T_dag4 == { Job("dag4", 4, 3, "dag", {"m1", "m2"}, One) }            \* 160 x 256
@@ -94,10 +97,12 @@ T_split4 == { Job("split4", 4, 3, "dag", {"m1"}, Split) }            \* 2 400 x 
 T_splitfree3 == { Job("splitfree3", 3, 2, "free", {"m1"}, Split) }   \* 3 430 x 8
 T_spell4 == { Job("spell4", 4, 3, "dag", {"m1"}, Spell) }            \* 160 x 4 x 16
 T_del4 == { DelJob("del4", 4, 3, "dag", {"m1"}, One) }               \* 160 x 16 x 4 deletions
-T_ext4 == { Job("ext4", 4, 3, "ext", {"m1"}, One) }                   \* 6 560 x 16
+T_ext4 == { Job("ext4", 4, 3, "ext", {}, One) }                       \* 6 560, orders only
+T_ext3 == { Job("ext3", 3, 3, "ext", {"m1"}, One) }                   \* 160 x 8
 T_imp4 == { ImportJob("imp4", 4, 3, "dag", {"m1"}, One) }             \* 160 x 81
 T_imp3 == { ImportJob("imp3", 3, 3, "dag", {"m1", "m2"}, One) }       \* 10 x 729
-ThoroughJobs == T_imp4 \cup T_imp3 \cup T_ext4 \cup T_dag5 \cup T_dag4 \cup T_free3 \cup T_free4 \cup T_self3 \cup T_split4 \cup T_splitfree3 \cup T_spell4 \cup T_del4
+T_deep4 == { Job("deep4", 4, 3, "dag", {"m1"}, Deep) }                \* 160 x 2 x 3 x 16
+ThoroughJobs == T_ext3 \cup T_deep4 \cup T_imp4 \cup T_imp3 \cup T_ext4 \cup T_dag5 \cup T_dag4 \cup T_free3 \cup T_free4 \cup T_self3 \cup T_split4 \cup T_splitfree3 \cup T_spell4 \cup T_del4
 SimJobs == { Job("sim6", 6, 3, "dag", {"m1"}, One) }   \* 564 160 hierarchies: sampled with -simulate
 TinyJobs == { Job("dag3", 3, 3, "dag", {"m1"}, One), Job("free2", 2, 2, "free", {"m1"}, Split),
               Job("spell3", 3, 3, "dag", {"m1"}, Spell), DelJob("del2", 2, 3, "dag", {"m1"}, One),
@@ -150,12 +155,15 @@ Hier(k) == IF k = 0 THEN {<<>>} ELSE {Append(h, b) : h \in Hier(k - 1), b \in Ba
 \* ---- module layout: where classes live and how a base expression reaches its class ------------------
 \* classes 1..cut live in module mb, the others in ma; "one" / "sub": everything in ma; "nest": classes
 \* 1..cut are members of the holder class ma.H (their path is ma.H.Cc), the others are in ma.
-ModOf(c) == IF layout \in {"one", "sub"} \/ c > cut THEN "ma" ELSE IF layout = "nest" THEN "ma.H" ELSE "mb"
+ModOf(c) == IF layout \in {"one", "sub"} \/ c > cut THEN "ma"
+            ELSE IF layout = "nest" THEN "ma.H" ELSE IF layout \in Deep THEN "ma.H.M" ELSE "mb"
 \* Expr.canonical_path of the base expression naming class b inside the class statement of c.  A name
 \* imported with `from mb import Cb [as Kb]` or written `mb.Cb` is resolved by the expression itself;
 \* with "chain" the name is imported from mc, which only re-exports it (`from mb import Cb`): the path
 \* denotes an Alias; with "chain2" it is imported from md, which re-exports mc's re-export (two hops).
 \* "sub": the base is written `Cb[int]` (ExprSubscript: the canonical path of the subscripted value);
+\* "nest2" / "nest2d": the base is written `H.M.Cb` (ExprAttribute of three names, each resolved in the scope of the one
+\* before it): its canonical path is ma.H.M.Cb - never the decoy ma.H.Cb that "nest2d" puts at the shorter path.
 \* "nest": a module-level class names a nested base `H.Cb` (ExprAttribute chain), a nested class names its
 \* nested base `Cb` (resolved in the scope of H): both give ma.H.Cb.
 BasePath(c, b) == IF ModOf(b) = ModOf(c) THEN <<ModOf(c), b>>
@@ -179,7 +187,7 @@ ResolveOne(c, b) == IF b = Ext THEN NoClass     \* get_member raises KeyError: n
 ResolvedBases(c) == SelectSeq([i \in 1..Len(bases[c]) |-> ResolveOne(c, bases[c][i])], LAMBDA x : x # NoClass)
 \* names under which class b is visible as an import alias in the *other* module (Alias views of a class)
 AliasViews(b) ==
-  IF layout \in {"one", "attr", "sub", "nest"} THEN {}
+  IF layout \in {"one", "attr", "sub", "nest"} \cup Deep THEN {}
   ELSE {<<ModOf(c), b>> : c \in {x \in Classes : ModOf(x) # ModOf(b) /\ b \in Range(bases[x])}}
 
 \* ---- reference: the C3 rule of the language reference -----------------------------------------------
